@@ -13,6 +13,7 @@ instance : Num Int where
   neg := fun a => -a
   lt := fun a b => decide (a < b)
   eq := fun a b => decide (a = b)
+  fmod := fun a b => if b = 0 then none else some (Int.tmod a b)
   ofInt := id
   toInt? := some
   fmt := fun a => some (toString a)
